@@ -15,10 +15,30 @@ def facts(ctx):
     return _cache[key]
 
 
+FEATURE_VARIANTS = {"nomt": {"C01", "C02", "C03", "C04", "C05", "C06", "C07", "C08", "C09", "C10", "C13", "C15", "C16", "C17"},
+                    "mt-nocw12": {"C12", "C06"}}
+
+
 def pairs(ctx, want_kind=None, need_sv=True):
-    """Yield (model_item, GenItem) for every corpus item whose target type-checked and expanded."""
-    fx = facts(ctx)
-    crate_by_key = {c["key"]: c for c in fx.crates}
+    """Yield (model_item, GenItem) for every corpus item whose target type-checked and expanded. In the thorough tier the
+    feature-matrix variants (sylvia built without `mt`, resp. without `cosmwasm_1_2`) are appended for the properties that
+    are meaningful there."""
+    yield from _pairs_of(ctx, facts(ctx), want_kind, need_sv, "")
+    if ctx.tier == "thorough":
+        for variant, props in FEATURE_VARIANTS.items():
+            if ctx.prop in props:
+                fxv = F.get_facts("quick", "feat:" + variant)
+                for m in fxv.items:
+                    if not m.crate_key.startswith(variant + "/"):
+                        m.crate_key_plain = m.crate_key
+                        m.crate_key = variant + "/" + m.crate_key
+                        m.crate = variant + "/" + m.crate
+                ctx.tag("feat." + variant)
+                yield from _pairs_of(ctx, fxv, want_kind, need_sv, variant + "/")
+
+
+def _pairs_of(ctx, fx, want_kind, need_sv, prefix):
+    crate_by_key = {prefix + c["key"]: c for c in fx.crates}
     n = 0
     broken_elsewhere = any((F.target_errors(fx, c) or c.get("expansion_error")) and not c.get("expect_fail") for c in fx.crates)
     for m in fx.items:
@@ -27,7 +47,7 @@ def pairs(ctx, want_kind=None, need_sv=True):
         c = crate_by_key[m.crate_key]
         if c.get("expect_fail"):
             continue
-        exp = fx.expanded.get(m.crate_key)
+        exp = fx.expanded.get(getattr(m, "crate_key_plain", m.crate_key))
         errs = F.target_errors(fx, c)
         if exp is None:
             if errs or c.get("expansion_error") or broken_elsewhere:
@@ -53,7 +73,16 @@ def pairs(ctx, want_kind=None, need_sv=True):
 
 def corpus_must_compile(ctx, rule="compile"):
     """Every must-compile corpus target type-checks (T1 applies only then)."""
-    fx = facts(ctx)
+    all_fx = [("", facts(ctx))]
+    if ctx.tier == "thorough":
+        for variant, props in FEATURE_VARIANTS.items():
+            if ctx.prop in props:
+                all_fx.append((variant + "/", F.get_facts("quick", "feat:" + variant)))
+    for prefix, fx in all_fx:
+        _must_compile(ctx, rule, fx, prefix)
+
+
+def _must_compile(ctx, rule, fx, prefix):
     for c in fx.crates:
         if c.get("expect_fail"):
             continue
@@ -66,7 +95,7 @@ def corpus_must_compile(ctx, rule="compile"):
             e0 = errs[0] if errs else {"message": c.get("expansion_error") or "no expansion produced", "spans": []}
             sp = next((s for s in e0["spans"] if s["is_primary"]), None)
             where = f"{sp['file']}:{sp['line_start']}" if sp else c["origin"]
-            ctx.violation(rule, [c["key"]], where, "corpus program type-checks", f"{e0.get('code')}: {e0['message']}",
+            ctx.violation(rule, [prefix + c["key"]], where, "corpus program type-checks", f"{e0.get('code')}: {e0['message']}",
                           statement="a valid program of the corpus is rejected (or the generated code does not compile)")
 
 
